@@ -209,6 +209,7 @@ func checkC16(c *Check) {
 		return
 	}
 	runGenEngines(c, genOpts{entries: entries, order: true, guard: true, deref: true, rec: true})
+	c16DepthIsMax(c)
 	// delta path: sorted by name (information: the modify path must sort its table list)
 	sorted := false
 	for _, f := range methodsOfType(p, "pkg/database", "ScriptView") {
@@ -288,3 +289,91 @@ func checkC17(c *Check) {
 }
 
 var _ = token.NoPos
+
+// c16DepthIsMax: tables are emitted by depth, and a table's depth must exceed
+// the depth of every table it refers to. In the function that derives a depth
+// from the completed depths of the referenced tables (found by role: a
+// pkg/database function returning an int that is computed as "looked-up depth of
+// another table + 1" inside a loop over the columns), every assignment of the
+// result inside the loop has to be control-dependent on a comparison of the new
+// value with the running one (the running maximum). A plain assignment makes
+// the depth that of the column visited last, and a table can then be created
+// before one it refers to.
+func c16DepthIsMax(c *Check) {
+	p := c.P
+	n := 0
+	for _, f := range p.RepoFuncs() {
+		if fnPkgPath(f) != repoMod+"/pkg/database" || f.Parent() != nil || strings.HasSuffix(p.fnFile(f), "_test.go") {
+			continue
+		}
+		hasInt := false
+		for i := 0; i < f.Signature.Results().Len(); i++ {
+			if b, ok := f.Signature.Results().At(i).Type().Underlying().(*types.Basic); ok && b.Kind() == types.Int {
+				hasInt = true
+			}
+		}
+		if !hasInt {
+			continue
+		}
+		// candidate new depths: (lookup in a map[string]int) + 1
+		eachInstr(f, func(_ *ssa.BasicBlock, i ssa.Instruction) {
+			bin, ok := i.(*ssa.BinOp)
+			if !ok || bin.Op != token.ADD {
+				return
+			}
+			if k, isK := constInt(bin.Y); !isK || k != 1 {
+				return
+			}
+			lk, ok := bin.X.(*ssa.Lookup)
+			if !ok {
+				return
+			}
+			if mt, ok := lk.X.Type().Underlying().(*types.Map); !ok || !types.Identical(mt.Elem(), types.Typ[types.Int]) {
+				return
+			}
+			// where does the new depth go? into a phi of the result variable
+			if bin.Referrers() == nil {
+				return
+			}
+			n++
+			key := fnName(f) + "|depth is the maximum over the referenced tables"
+			compared := false
+			assigned := false
+			for _, r := range *bin.Referrers() {
+				switch y := r.(type) {
+				case *ssa.BinOp:
+					if y.Op == token.GTR || y.Op == token.LSS || y.Op == token.GEQ || y.Op == token.LEQ {
+						// the other operand must be the running value (a phi)
+						other := y.X
+						if other == ssa.Value(bin) {
+							other = y.Y
+						}
+						if _, isPhi := other.(*ssa.Phi); isPhi {
+							// and the assignment must depend on it
+							for _, br := range branchesOn(y) {
+								_ = br
+								compared = true
+							}
+						}
+					}
+				case *ssa.Phi:
+					assigned = true
+				case *ssa.Store:
+					assigned = true
+				}
+			}
+			if !assigned {
+				return
+			}
+			// with a comparison present, the phi that receives the new value must be
+			// fed from the branch the comparison controls
+			c.Cond(compared, "DEPTH-IS-MAX", key, p.pos(bin.Pos()),
+				"the new depth replaces the running depth only after being compared with it",
+				"the depth derived from a referenced table is assigned without being compared with the running depth: the table's depth becomes that of the column visited last, and it can be created before a table it refers to")
+		})
+	}
+	c.Counts["depth_updates"] = n
+	if n == 0 {
+		c.Undecidedf("DEPTH-IS-MAX", "pkg/database", "-", "no depth computation (completed depth of a referenced table + 1) found: unresolved anchor")
+	}
+}
